@@ -430,10 +430,14 @@ def drift_notes(res, limit=5):
     return notes
 
 
+def setup():
+    return build_model(PROP, "ExtractC15.v", os.path.join(ROOT, "ocaml/c15"), ["theories/CacheFile.v"])[0]
+
+
 def main(tier, seed, replay=None):
     t0 = time.time()
-    proof = Proof(PROP)
-    exe, _ = build_model(PROP, "ExtractC15.v", os.path.join(ROOT, "ocaml/c15"), ["theories/CacheFile.v"])
+    proof = Proof(PROP, tier=tier)
+    exe = setup()
     known, fixed = known_findings(PROP)
     known_ids = [k.get("id") for k in known]
     cfg_flags = "".join("0" if f in known_ids else "1" for f in FINDINGS)
